@@ -207,7 +207,14 @@ def random_case(rng):
     for _ in range(rng.randrange(0, 12)):
         c = rng.choice([0, 0, 0, 1, 2, 3])
         regs.append([c, [] if c == 3 else [rand_val(rng, kinds[i]) for i in range(len(kinds))]])
-    return {"props": props, "regs": regs, "type": rng.choice([0, 0, 0, 1, 2, 3])}
+    t = rng.choice([0, 0, 0, 1, 2, 3])
+    if rng.random() < 0.12:
+        # every register of the requested type (and its subclasses) has all its values missing:
+        # the view must still have one row of nulls per register
+        for r in regs:
+            if r[0] != 3:
+                r[1] = [None] * len(r[1])
+    return {"props": props, "regs": regs, "type": t}
 
 
 def corpus_cases():
